@@ -485,7 +485,7 @@ func ruleMergeCollide(c *Ctx) []Obligation {
 	var look *ssa.Lookup
 	eachInstr(merge, func(in ssa.Instruction) {
 		if l, ok2 := in.(*ssa.Lookup); ok2 {
-			if _, f, base := loadedField(l.X); f == m.fDir && base == ssa.Value(merge.Params[0]) {
+			if _, f, base := loadedField(l.X); f == m.fDir && isParamN(merge, base, 0) {
 				look = l
 			}
 		}
